@@ -61,7 +61,7 @@ def convert(src, dst, stats, samples):
 def gen_and_replay(rep, exe, w, cfg, part, nparts, stats, samples, lock):
     """One partition: GenMatch -> cases -> drv_match replay."""
     out = '%s/%s.%d.ndjson' % (w, cfg, part)
-    g = lib.tlc('GenMatch', 'GenMatch_%s.cfg' % cfg, workers=1, env={'OUT': out, 'PART': part, 'NPARTS': nparts}, timeout=800, xmx='3g')
+    g = lib.tlc('GenMatch', 'GenMatch_%s.cfg' % cfg, workers=1, env={'OUT': out, 'PART': part, 'NPARTS': nparts}, timeout=600, xmx='3g')
     res = dict(tlc=g, mism=[], summary=None, fail=None)
     if g.rc != 0 or g.errors or not os.path.exists(out):
         if g.rc == 0 and not g.errors:        # a partition without any well-formed pattern
@@ -72,7 +72,7 @@ def gen_and_replay(rep, exe, w, cfg, part, nparts, stats, samples, lock):
     sm = []
     convert(out, out + '.txt', st, sm)
     os.unlink(out)
-    d = lib.run_driver(exe, ['replay', out + '.txt'], timeout=800)
+    d = lib.run_driver(exe, ['replay', out + '.txt'], timeout=600)
     os.unlink(out + '.txt')
     with lock:
         for k in st:
@@ -102,7 +102,7 @@ def validate(rep, path, label, par=2):
         p = '%s.c%d' % (path, i)
         with open(p, 'w') as f:
             f.write('\n'.join(chunks[i]) + '\n')
-        r = lib.tlc('TVMatch', 'TVMatch.cfg', workers=4, env={'TRACE': p}, xmx='3g', timeout=800)
+        r = lib.tlc('TVMatch', 'TVMatch.cfg', workers=4, env={'TRACE': p}, xmx='3g', timeout=600)
         os.unlink(p)
         return i, r
     judged = mism = 0
@@ -167,7 +167,7 @@ def run(pid, tier):
     jobs = [(cfg, p, n) for cfg, n in mc for p in range(n)]
     def mcjob(j):
         cfg, p, n = j
-        return j, lib.tlc('MCMatch', 'MCMatch_%s.cfg' % cfg, workers=1, env={'PART': p, 'NPARTS': n}, timeout=850, xmx='3g')
+        return j, lib.tlc('MCMatch', 'MCMatch_%s.cfg' % cfg, workers=1, env={'PART': p, 'NPARTS': n}, timeout=600, xmx='3g')
     wf = ill = illw = mhdr = 0
     with concurrent.futures.ThreadPoolExecutor(max_workers=jobs_n) as ex:
         for (cfg, p, n), r in ex.map(mcjob, jobs):
